@@ -486,6 +486,8 @@ bool attachBelowShape(NifFile& nif, NiShape* shape, const std::string& type, uin
 			if (link) obj = std::move(o);
 		}
 		if (!obj) { ctx.probe("attach_carrier_not_synthesised"); return false; }
+		// AddBlock (and with it every clone) registers a block under its virtual type name: it has to be the name it was made by
+		if (std::string(obj->GetBlockName()) != chain[k]) ctx.info["type_name_mismatch"] = chain[k] + " calls itself " + obj->GetBlockName();
 		for (auto& rf : refs) rf.first->index = NIF_NPOS;
 		if (link) link->index = nextId;
 		objs[k] = obj.get();
